@@ -419,6 +419,9 @@ def run_case(ctx, k, rng):
             name, picks = program[int(rng.integers(0, len(program)))]
             if rng.random() < 0.5:      # repeat the same call in another accepted form of the same values
                 picks = [pick_same(rng, pool, p) for p in picks]
+            elif rng.random() < 0.6:    # a parameter sweep: the same data, another value of the scalar parameters (sigma, M, seed)
+                picks = [pick(rng, pool, kd) if kd in ("sigma", "M", "seed") else p for p, kd in zip(picks, ENTRY[name][1])]
+                ctx.note("repeats with another scalar parameter")
         else:
             name = names[int(rng.integers(0, len(names)))]
             picks = [pick(rng, pool, kd) for kd in ENTRY[name][1]]
